@@ -3,7 +3,7 @@ import z3
 
 from pyvc import ops, specfn
 from pyvc.interp import LoopSpec
-from pyvc.sym import SSeq, SBool, ListObj, ExcObj, PyRaise, SeqI, mk_bool, mk_int, as_int_term, Unsupported
+from pyvc.sym import SSeq, SBool, ListObj, ExcObj, PyRaise, SeqI, mk_bool, mk_int, as_int_term, Unsupported, Obj
 from pyvc.unit import Contract, Case, Is, NOTHING, Lemma, find_function
 from contracts import objs
 from contracts import hexmodel as HM
@@ -126,6 +126,7 @@ def register(reg):
     _register_squash(reg)
     _register_prune(reg)
     _register_proof(reg)
+    _register_at_root(reg)
 
 
 def _register_nodes(reg):
@@ -1410,3 +1411,41 @@ def _register_proof(reg):
                                      setup=gfp_setup, props=("C03",), callee=False,
                                      loops={0: LoopSpec(gfp_inv, havoc=lambda fr: [fr.locals["trie"].fields["db"]],
                                                         fresh={"node": "unbound"})}))
+
+
+# ---------------------------------------------------------------------------------------------------
+# at_root (C04): a snapshot of a non-pruning trie reads the same database at the requested root, never prunes, and
+# taking it leaves the trie as it was
+
+def at_root_setup(E):
+    return {"self": HM.mk_trie(E, pruning=False), "at_root_hash": objs.hash32(E, "at_root_hash")}
+
+
+def at_root_body(E, ctx, fn, argv):
+    from pyvc.modules import Wrapped
+    base = fn
+    while isinstance(base, Wrapped):
+        base = base.func
+
+    def capture(y):
+        E.ghost["snapshot"] = y
+    return E.call_func(base, argv, {}, yield_cb=capture)
+
+
+def at_root_cases(E, ctx):
+    def post():
+        snap = E.ghost.get("snapshot")
+        if not isinstance(snap, Obj):
+            return [("yields-a-snapshot-trie", False)]
+        f = snap.fields
+        return [("a-different-object", snap is not ctx.self),
+                ("same-database", f.get("db") is ctx.self.fields["db"]),
+                ("at-the-requested-root", ops.py_eq(f.get("root_hash"), ctx.at_root_hash)),
+                ("never-prunes", f.get("is_pruning") is False and f.get("_ref_count") is None)]
+    return [Case("snapshot", returns=lambda: None, post=post, modifies=[])]
+
+
+def _register_at_root(reg):
+    H = HEX + ":HexaryTrie."
+    reg.add("hexary_api", Contract(H + "at_root", ["self", "at_root_hash"], at_root_cases, setup=at_root_setup,
+                                   props=("C04",), callee=False, body_model=at_root_body))
